@@ -45,6 +45,10 @@ def endpoint_line_cost(pt, metric):
     if metric == 'rmsle':
         if ymin < 0 or float(np.min(yh)) <= -1:
             return None
+        # the float64 line m*x + b carries an absolute error of about eps*|m*x|; where that is not small against
+        # y_hat + 1 the logarithm is ill-conditioned (the float evaluation may even leave its domain): no verdict
+        if 256 * EPS * (xr + 1.0) * ymax > 1e-3 * (float(np.min(yh)) + 1.0):
+            return None
         v = float(np.sqrt(np.mean((np.log(y + 1) - np.log(yh + 1)) ** 2)))
         return v, 1e-6 * abs(v) + 256 * EPS * (xr + 1.0) * ymax + 64 * EPS
     if metric == 'rss':
